@@ -42,7 +42,6 @@ m = {
     "checks": checks,
     "notes": registry.NOTES,
 }
-if na:
-    m["not_applicable"] = na
+m["not_applicable"] = na    # kept current: empty = every property is claimed
 json.dump(m, open(os.path.join(ROOT, "MANIFEST.json"), "w"), indent=1)
 print("MANIFEST.json: %d checks, %d not claimed" % (len(checks), len(na)))
